@@ -453,6 +453,11 @@ func (s Server) Serve(c context.Context, conn network.Conn) (err error) {
 
 		// Release request body stream
 		if reqBodyStream != nil {
+			// The stream object goes back to the pool and may serve another connection
+			// at once: the request, which tracers still look at in Finish, lets go of it.
+			if ctx.Request.IsBodyStream() && ctx.RequestBodyStream() == reqBodyStream {
+				ctx.Request.ConstructBodyStream(ctx.Request.BodyBuffer(), nil)
+			}
 			err = ext.ReleaseBodyStream(reqBodyStream)
 			if err != nil {
 				return
